@@ -380,6 +380,20 @@ def conc_phase(ctx):
     # owners must be independent: scenarios that register decoration names would share those names through the
     # process-global registry (the statement has the registry read, and extended with fresh names only)
     scens = [ops for ops in scens if not any(o["op"] == "regdecor" for o in ops)]
+    # unusually wide columns, each more than twice as wide as any the process has rendered before, one in every other
+    # group of goroutines (and two in one group): whatever the library grows on demand and shares between tables
+    # (a padding run, a scratch buffer) is written by that goroutine while its neighbours read it
+    grp = 16 if tier == "quick" else 64
+    for j, width in enumerate([90, 200, 420, 900, 1900, 1900]):
+        wide = [{"op": "newtable", "via": "core"},
+                {"op": "headers", "t": 1, "items": [gens.S("h"), gens.S("i")]},
+                {"op": "rowitems", "t": 1, "items": [gens.S("w" * width), gens.S("a")]},
+                {"op": "rowitems", "t": 1, "items": [gens.S("b"), gens.S("ccc")]},
+                {"op": "setprop", "owner": {"kind": "column", "t": 1, "n": 1}, "k": "k_align", "v": ["vL", "vR", "vC"][j % 3]},
+                {"op": "wrap", "kind": "text", "over": {"t": 1}},
+                {"op": "render", "w": 1, "entry": "Render"},
+                {"op": "render", "pkg": "md", "t": 1, "entry": "RenderTo"}]
+        scens.insert(min(len(scens), min(j, 4) * 2 * grp + 5 + j), wide)
     sp = os.path.join(d, "scen.ndjson")
     vlib.write_scenarios(sp, [("k%d" % i, ops) for i, ops in enumerate(scens)])
     for i, ops in enumerate(scens):
